@@ -8,6 +8,7 @@ from vlib.par import pmap
 PROPERTY = 'C03'
 LEVEL = 'other'
 TARGETS = [
+    ('sums', 'sequences.FixedLengthSequenceEdit.bounds'), ('sums', 'sequences.FixedLengthSequenceEdit.edits'),
     ('xmledit', 'xml.XMLElementEdit.bounds'), ('xmledit', 'xml.XMLElementEdit.edits'),
     ('bounded', 'bounds.Range.__add__'), ('bounded', 'edits.AbstractEdit.bounds'),
     ('bounded', 'graphtage.KeyValuePairEdit.bounds'), ('bounded', 'graphtage.KeyValuePairEdit.edits'),
@@ -16,16 +17,38 @@ TARGETS = [
 TRUSTED = ['protocol B for sub-edits', 'structural induction over the edit tree (paper step)']
 ASSUMPTIONS = ['numpy cost cells are mathematical integers']
 EXPLANATION = (
-    "Deductive: KeyValuePairEdit.bounds is the sum of the bounds of exactly the two sub-edits its edits() lists; "
+    "Deductive: FixedLengthSequenceEdit.bounds returns, for every length, exactly the sum of the ranges of the sub-edits "
+    "that FixedLengthSequenceEdit.edits lists (positional pairs, one Remove per surplus source element, one Insert per "
+    "surplus target element; prefix-sum functions defined by recursion, loop invariant over the listing index); "
+    "XMLElementEdit.bounds is the sum of its four listed parts; KeyValuePairEdit.bounds is the sum of the bounds of exactly the two sub-edits its edits() lists; "
     "AbstractEdit.bounds returns the constructor's constant for constant-cost edits; EditDistance._best_match writes "
     "costs[r][c] = costs[predecessor] + upper bound of the chosen edit and changes no other cell (the local step of the "
     "matrix cost = sum of the back-traced edits). The remaining compound edits (MultiSetEdit with its matcher, "
-    "EditCollection, XMLElementEdit, FixedLengthSequenceEdit sums over symbolic lengths) and the three views "
+    "EditCollection) and the three views "
     "(edited_cost, sum of get_all_edits, refined top-level bounds) are decided by the bounded tree oracle.")
 
 
 def witnesses(func_result, ob, repo_root, tier):
-    return []
+    """Concrete inputs for an obligation that is not discharged: a small directed search on the real code (lists of
+    different lengths with list edits off for FixedLengthSequenceEdit, XML element pairs for XMLElementEdit)."""
+    fn = func_result['function']
+    jobs = []
+    if 'FixedLengthSequenceEdit' in fn:
+        lists = [[], [1], [1, 2], [7, 22222, "ab"], [[1, 2], 3], [[1], [2, 3], "ac", 0]]
+        off = [o for o in gt.OPTION_COMBOS if not o['allow_list_edits']][:1] or gt.OPTION_COMBOS[:1]
+        jobs = [('json', a, b, o) for a in lists for b in lists for o in off]
+    elif 'XMLElementEdit' in fn:
+        xs = gt.xml_specs()[:12]
+        jobs = [('xml', a, b, gt.OPTION_COMBOS[0]) for a in xs for b in xs]
+    out, seen = [], set()
+    for j in jobs:
+        for f in _check(j):
+            if f['class'].startswith('c03-') and f['class'] not in seen:
+                seen.add(f['class'])
+                out.append(f)
+        if len(out) >= 3:
+            break
+    return out
 
 
 def replay(entry, repo_root):
